@@ -49,6 +49,7 @@ def run(ctx):
     if not ctx.quick:
         sigs += [[1, 1, 1, 1, 1], [0, 1, 1, 1, -1], [1, 1, 1, 1, 1, 1], [1, 1, -1, -1, 0, 1]]
     lines, plan = [], []
+    src_lines, src_plan = [], []
     for sig in sigs:
         alg = make_algebra(sig)
         d = alg.d
@@ -106,6 +107,17 @@ def run(ctx):
                     if not close(t, e2):
                         ctx.violation('outertan', case, str(e2)[:200], str(t)[:200], key='outertan:def')
                 except ZeroDivisionError:
+                    pass
+            # the outer series as *translated from the source* (validates the translator), run over the rationals on integer
+            # coefficients and compared numerically with the library's results on the same operand
+            if len(kx) <= 5:
+                iv = [rng.choice([1, 2, 3, -2, 5, -1]) for _ in kx]
+                xi = MultiVector.fromkeysvalues(alg, tuple(kx), [Fraction(v) for v in iv])
+                try:
+                    real3 = [dict_of(f()) for f in (xi.outerexp, xi.outersin, xi.outercos)]
+                    src_lines.append(f'srcouter {tok} {",".join(map(str, kx))} {",".join(map(str, iv))}')
+                    src_plan.append(({'sig': sig, 'kx': kx, 'values': iv}, real3))
+                except Exception:
                     pass
             # model tie: wedge powers
             if len(kx) <= 5:
@@ -259,9 +271,12 @@ def run(ctx):
             try:
                 model_terms = [parse_mv(t) for t in got.split('|')]
                 env = {i: v for i, v in enumerate(vals)}
-                ok = len(model_terms) == len(terms)
+                # the model's powers are symbolic; the reference stops at the first power that vanishes for these VALUES: the
+                # model may list further (symbolically non-zero) powers, which must then evaluate to zero
+                ok = len(model_terms) >= len(terms)
                 if ok:
-                    for mt, rt in zip(model_terms, terms):
+                    for i_, mt in enumerate(model_terms):
+                        rt = terms[i_] if i_ < len(terms) else {}
                         mv_ = {k: p.subs(env) for k, p in mt.items()}
                         mv_ = {k: v for k, v in mv_.items() if v != 0}
                         if mv_ != {k: v for k, v in rt.items() if v != 0}:
@@ -273,6 +288,20 @@ def run(ctx):
                 if nb <= 4:
                     ctx.mismatch('wedge-powers', case, got[:200], str(terms)[:200])
         ctx.count('driver-lines', len(lines)); ctx.count('driver-mismatches', nb)
+    out2 = ctx.drive(src_lines) if src_lines else None
+    if out2 is not None:
+        nb = 0
+        for (case, real3), got in zip(src_plan, out2):
+            try:
+                parts = [{int(e.split(':')[0]): float(Fraction(e.split(':')[1])) for e in p_.split(',') if e} for p_ in got.split('|')]
+                ok = len(parts) == 3 and all(close({k: v for k, v in a.items() if v != 0}, {k: float(v) for k, v in b.items() if v != 0}) for a, b in zip(parts, real3))
+            except Exception:
+                ok = False
+            if not ok:
+                nb += 1
+                if nb <= 4:
+                    ctx.mismatch('translated-source', {**case, 'functions': 'codegen_outerexp | outersin | outercos'}, got[:200], str(real3)[:200])
+        ctx.count('translated-outer-lines', len(src_lines)); ctx.count('translated-outer-mismatches', nb)
     inplace_pass(ctx, np)
     name_route_pass(ctx, np)
     ctx.assumptions = ['the code computes in floating point (v / j in the outer series, **0.5, numpy/sympy transcendental functions): all '
